@@ -301,27 +301,7 @@ def run(fx, tier):
         v.check(ok, 'R-DOM', '%s::%s calls replace_next_layer [%s]' % (who[0], who[1], caller.tu),
                 'the current stream is replaced only by the constructor, shutdown_op::perform and reconnect_op::on_connect',
                 key='C10:R-DOM:replace_next_layer<-%s::%s' % who, where='%s:%d' % (caller.path_file(), line))
-    for f in fx.functions(cls='reconnect_op', name='operator()', tag='on_connect'):
-        v.saw(f)
-        for pi, p in enumerate(op_paths(fx, f)):
-            rep = p.calls('replace_next_layer')
-            succ = [c for c in p.entered('complete') if ec_arg_class(p, p.arg(c, 0))[0] == 'success']
-            if not rep and not succ:
-                continue
-            facts = {'timer_won': None, 'connect_failed': p.ec_is('failed', 'connect_ec'), 'open': None,
-                     'aborted': p.ec_is('operation_aborted', 'connect_ec')}
-            for c in p.conds():
-                cm = p.cmp(c)
-                o = p.origin(c, c.x)
-                if cm and contains(cm[1], lambda n: n.get('n') == 'ord') and isinstance(unwrap(cm[2]), dict) and unwrap(cm[2]).get('c') == 1:
-                    facts['timer_won'] = cm[0] == '=='
-                if cm and contains(o, lambda n: is_call(n, 'is_open')):
-                    facts['open'] = cm[0] == '!='
-            ok = (len(rep) == 1 and len(succ) == 1 and facts['timer_won'] is False and facts['connect_failed'] is False
-                  and facts['open'] is True and p.before(rep[0], succ[0]))
-            v.check(ok, 'R-DOM', 'reconnect_op::(on_connect)%s:path%d [%s]' % (f.inst()[:25], pi, f.tu),
-                    'new stream installed and success reported only when the handshake finished first, without error, '
-                    'on an open client (%s)' % facts, key='C10:R-DOM:on_connect:swap-edge', where=f.file)
+    install_only_when_open_rule(fx, v, 'C10')
     for cls in ('write_op', 'read_op'):
         for f in fx.functions(cls=cls, name='perform'):
             v.saw(f)
@@ -462,3 +442,28 @@ def _writes_field_chain(x, field):
         if isinstance(l, dict) and l.get('k') == 'mem' and l.get('n') == field:
             return x.get('op')[-2:]
     return None
+
+
+def install_only_when_open_rule(fx, v, prop='C10'):
+    """shared with C05 and C09: a connect attempt that finishes after cancel()/disconnect must not bring the client back to life"""
+    for f in fx.functions(cls='reconnect_op', name='operator()', tag='on_connect'):
+        v.saw(f)
+        for pi, p in enumerate(op_paths(fx, f)):
+            rep = p.calls('replace_next_layer')
+            succ = [c for c in p.entered('complete') if ec_arg_class(p, p.arg(c, 0))[0] == 'success']
+            if not rep and not succ:
+                continue
+            facts = {'timer_won': None, 'connect_failed': p.ec_is('failed', 'connect_ec'), 'open': None,
+                     'aborted': p.ec_is('operation_aborted', 'connect_ec')}
+            for c in p.conds():
+                cm = p.cmp(c)
+                o = p.origin(c, c.x)
+                if cm and contains(cm[1], lambda n: n.get('n') == 'ord') and isinstance(unwrap(cm[2]), dict) and unwrap(cm[2]).get('c') == 1:
+                    facts['timer_won'] = cm[0] == '=='
+                if cm and contains(o, lambda n: is_call(n, 'is_open')):
+                    facts['open'] = cm[0] == '!='
+            ok = (len(rep) == 1 and len(succ) == 1 and facts['timer_won'] is False and facts['connect_failed'] is False
+                  and facts['open'] is True and p.before(rep[0], succ[0]))
+            v.check(ok, 'R-DOM', 'reconnect_op::(on_connect)%s:path%d [%s]' % (f.inst()[:25], pi, f.tu),
+                    'new stream installed and success reported only when the handshake finished first, without error, '
+                    'on an open client (%s)' % facts, key=prop + ':R-DOM:on_connect:swap-edge', where=f.file)
